@@ -80,6 +80,9 @@ def rule_debug_regions(ctx, rule="C20-debugpure"):
                     continue
                 if any(a.startswith("&mut ") or a.startswith("*mut ") for a in t.get("arg_tys", [])):
                     bad.append("%s takes a mutable argument (line %s)" % (nme, t.get("line")))
+            if t["k"] == "drop" and any(x in (t.get("ty") or "") for x in ("LeanString", "repr::Repr", "HeapBuffer")):
+                # a handle dropped inside a debug-only region: its release happens in debug builds only
+                bad.append("drop of a %s (line %s)" % (t.get("ty"), t.get("line")))
             for s in b.blocks[bb]["stmts"]:
                 if s["k"] == "assign" and s["lhs"]["p"] and "deref" in s["lhs"]["p"]:
                     bad.append("store through a pointer (line %s)" % s.get("line"))
